@@ -101,7 +101,7 @@ RULE = ('one case per executed operation: (root table, history, operation, rando
         'relative tolerance; the six chains on the typed tables (2 each | all).  Row designations: mdcev_row_split in every '
         'expanded state with no argument, every position list of length <= 2, full range, reverse, the empty designation as '
         'list / tuple / range / iterator / numpy array, numpy arrays [0], [n-1], [n-1, 0], full, tuple / range / iterator / list '
-        'of numpy integers (reduced plan in the wide states); extract_rows additionally with numpy arrays and numpy integers; '
+        'of numpy integers (reduced plan in the wide states); extract_rows additionally with numpy arrays and numpy integers; extract_rows / mdcev_row_split also with range objects having a start, a stop and a step (every arithmetic progression of positions with steps +-1, +-2, +-3, the stop written just behind the last element or one step later); '
         'sample size 0 for both sample_* methods; flattening with identical_columns=[] (method, function, all 3^5 raw frames).  '
         'Formula objects (fourth part): 8 kinds of past (fresh; evaluated / prepared / model / simulation / part of a model / '
         'variables shared with a model on another table; model on this table) x 3|26 layouts of the other table (same order, '
@@ -1157,8 +1157,42 @@ def container(form, lst):
     """A list of positions in one of the forms in which a caller may hold it (the argument is declared Iterable[int])."""
     import numpy as np
 
-    return {'list': list, 'tuple': tuple, 'iterator': iter, 'range': lambda q: range(len(q)),
+    return {'list': list, 'tuple': tuple, 'iterator': iter, 'range': as_range, 'range-late-stop': lambda q: as_range(q, late=True),
             'ndarray': lambda q: np.array(q, dtype=int), 'npint-list': lambda q: [np.int64(v) for v in q]}[form](lst)
+
+
+def as_range(q, late=False):
+    """The range object that designates the arithmetic progression q (late: the stop is put one whole step after the last
+    element instead of just behind it - both denote the same positions)."""
+    if not q:
+        return range(0)
+    step = q[1] - q[0] if len(q) > 1 else 1
+    assert all(b - a == step for a, b in zip(q, q[1:])) and step != 0
+    r = range(q[0], q[-1] + (step if late else (1 if step > 0 else -1)), step)
+    assert list(r) == list(q)
+    return r
+
+
+def progressions(n, reduced=False):
+    """Arithmetic progressions of positions inside 0..n-1 with steps +-1, +-2, +-3: from every start the longest one, and
+    the same without its last element (what range(start, stop, step) can designate)."""
+    full = list(range(n))
+    if reduced:
+        out = [full[::2], full[::-1], full[1::3], full[::-2]]
+    else:
+        out = []
+        for step in (1, 2, 3, -1, -2, -3):
+            for a in range(n):
+                q = list(range(a, n, step)) if step > 0 else list(range(a, -1, step))
+                out.append(q)
+                if len(q) > 2:
+                    out.append(q[:-1])
+    seen, res = set(), []
+    for q in out:
+        if q and tuple(q) not in seen:
+            seen.add(tuple(q))
+            res.append(q)
+    return res
 
 
 def distinct_bound(tier):
@@ -1443,6 +1477,9 @@ def run_observer(R: Replayed, op, tier, rec: Rec, ctx, only_answer=None):
             plan = [('list', lst) for lst in extract_lists(n, tier)]
         # the argument is declared Iterable[int]: other iterable forms of a few position lists
         plan += [('tuple', full), ('range', full), ('iterator', full), ('iterator', [n - 1, 0]), ('tuple', [n - 1, 0])]
+        # range objects with a start, a stop and a step (every arithmetic progression of positions, both ways of writing the stop)
+        red = len(op) > 1 and op[1] == 'reduced'
+        plan += [(f, q) for q in progressions(n, red) if q != full for f in (('range',) if red else ('range', 'range-late-stop'))]
         # ... and the containers / integers of numpy (what an index computation returns)
         plan += [('ndarray', full), ('ndarray', [n - 1, 0]), ('ndarray', [0]), ('npint-list', [n - 1, 0])]
         for form, lst in plan:
@@ -1474,6 +1511,7 @@ def run_observer(R: Replayed, op, tier, rec: Rec, ctx, only_answer=None):
         if not reduced:
             plan += [('tuple', full), ('range', full), ('iterator', full), ('iterator', [n - 1, 0]), ('tuple', [n - 1, 0]),
                      ('ndarray', full), ('npint-list', [n - 1, 0])]
+        plan += [('range', q) for q in progressions(n, reduced) if q != full]
         seen = set()
         for form, lst in plan:
             if (form, tuple(lst)) in seen:
